@@ -189,6 +189,90 @@ fn sweep_writer(s: &WScenario, info: &mut Info) -> Result<(), String> {
     Ok(())
 }
 
+
+/// A writer whose sink starts beyond 4 GiB (sparse): every header offset needs a ZIP64 record and the
+/// ZIP64 end record + locator are written - with two small entries, so that EVERY I/O call of the run,
+/// in particular each write of those records, can be made to fail.
+fn sweep_writer_far(start: u64, info: &mut Info) -> Result<(), String> {
+    use crate::refzip::Content;
+    use crate::sio::{Shared, SparseFile};
+    let program = Program {
+        ops: vec![
+            Op::File { name: "far/deflated.txt".into(), opts: gen::Opts::plain(gen::Method::Deflated), chunks: vec![Content::Text { seed: 21, len: 1200 }] },
+            Op::File { name: "far/stored.bin".into(), opts: gen::Opts::plain(gen::Method::Stored), chunks: vec![Content::Rand { seed: 22, len: 77 }] },
+            Op::Comment(b"archive comment behind the ZIP64 end records".to_vec()),
+        ],
+    };
+    type Logical = (Vec<(Vec<u8>, u32, u64, u64)>, Vec<u8>, Vec<(String, Result<Vec<u8>, ()>)>);
+    let logical_far = |file: &Shared<SparseFile>| -> Result<Logical, String> {
+        let p = parse::parse(file, parse::Opts { lenient: false, allow_leading_gap: true, decode_limit: 1 << 20, allow_trailing: false })?;
+        let mut za = zip::ZipArchive::new(file.clone()).map_err(|e| format!("crate reader: {e}"))?;
+        let mut v = Vec::new();
+        for i in 0..za.len() {
+            let mut f = za.by_index(i).map_err(|e| format!("crate reader: by_index({i}): {e}"))?;
+            let mut c = Vec::new();
+            let r = std::io::Read::read_to_end(&mut f, &mut c).map(|_| c).map_err(|_| ());
+            v.push((f.name().to_string(), r));
+        }
+        Ok((p.entries.iter().map(|e| (e.name.clone(), e.crc, e.usize_, e.header_start)).collect(), p.comment, v))
+    };
+    let run = |fail_at: usize, mode: (bool, u8), record: bool| -> Result<(Option<String>, Shared<SparseFile>, usize, Vec<u8>, bool), String> {
+        let st: Arc<FaultState> = FaultState::new_kind(fail_at, mode.0, record, mode.1);
+        let file = Shared::new(SparseFile::at_position(start));
+        let mut w = std::mem::ManuallyDrop::new(ZipWriter::new(FaultIo::new(file.clone(), st.clone())));
+        let mut first_err: Option<String> = None;
+        for (i, op) in program.ops.iter().enumerate() {
+            match catch(|| gen::apply(&mut w, op)) {
+                Ok(Ok(())) => {}
+                Ok(Err(e)) => {
+                    first_err.get_or_insert(e);
+                }
+                Err(p) => return Err(format!("PANIC in writer call #{i} on a sink beyond 4 GiB with a fault injected at I/O call {fail_at}: {p}")),
+            }
+        }
+        let finished = match catch(|| w.finish().map(|_| ())) {
+            Ok(Ok(())) => true,
+            Ok(Err(e)) => {
+                first_err.get_or_insert(format!("finish: {e}"));
+                false
+            }
+            Err(p) => return Err(format!("PANIC in finish() on a sink beyond 4 GiB with a fault injected at I/O call {fail_at}: {p}")),
+        };
+        if let Err(p) = catch(|| {
+            let _ = w.finish();
+            unsafe { std::mem::ManuallyDrop::drop(&mut w) }
+        }) {
+            return Err(format!("PANIC in finish()/drop after a fault at I/O call {fail_at} (sink beyond 4 GiB): {p}"));
+        }
+        let kinds = st.kinds.lock().unwrap().clone();
+        Ok((first_err, file, st.count(), kinds, finished))
+    };
+    let (e0, f0, n, kinds, _) = run(usize::MAX, (false, 0), true)?;
+    if let Some(e) = e0 {
+        return Err(format!("harness: fault-free run reports an error: {e}"));
+    }
+    let l0 = logical_far(&f0).map_err(|e| format!("harness: fault-free archive beyond 4 GiB unreadable: {e}"))?;
+    if l0.0.iter().any(|e| e.3 < 0xFFFF_FFFF) && start >= (1 << 32) {
+        return Err("harness: header offsets are not beyond 4 GiB".into());
+    }
+    info.nontrivial = n > 0;
+    for k in 0..n {
+        for mode in MODES {
+            FAULT_RUNS.fetch_add(1, Ordering::Relaxed);
+            BY_KIND[kinds[k] as usize].fetch_add(1, Ordering::Relaxed);
+            let (err, file, _, _, finished) = run(k, mode, false)?;
+            if err.is_none() && finished {
+                let what = format!("fault at I/O call {k} of {n} ({}; sticky={}, kind={}) on a sink starting at {start:#x} was reported by no call", kind_name(kinds[k]), mode.0, crate::sio::ek_name(mode.1));
+                let l = logical_far(&file).map_err(|e| format!("{what}, yet the finished archive is broken: {e}"))?;
+                if l != l0 {
+                    return Err(format!("{what}, yet the finished archive differs from the failure-free one"));
+                }
+            }
+        }
+    }
+    Ok(())
+}
+
 fn kind_name(k: u8) -> &'static str {
     match k {
         K_READ => "read",
@@ -335,7 +419,7 @@ fn sweep_big_open(n_entries: u32, kmax: usize, append: bool) -> Result<(), Strin
 }
 
 pub fn run(ctx: &mut Ctx) {
-    ctx.rule("each scenario is first run failure-free under a counting stream (n I/O calls), then re-run with a hard error injected at EVERY call index k<n, as a one-shot and as a sticky failure of kind Other, and with the kinds UnexpectedEof (one-shot, sticky) and Interrupted (one-shot: std's own retry loops swallow it, then the result must be the failure-free one); after the first error the scenario keeps issuing its remaining calls, then finish(), a second finish() and drop. readers: open + read every entry (seekable; streaming fully consumed; archives with encrypted entries a second time with a caller that reads 5 bytes at a time and calls read() again after an error) of the seed archives (plain, ZIP64, ZipCrypto, AES) and generated archives. writers: generated programs over all entry kinds, methods, extra data, aligned, ZipCrypto, optional append base and raw copies, completed by finish or drop; half of them with a caller that issues EVERY call of an operation whatever the earlier ones returned (write after a refused start_file, end_extra_data after a failed write) and calls flush() after each operation. writers_methods: every method x every kind of following operation, the same two callers. big_open: archives with > 65535 entries, a fault at every one of the first K I/O calls (quick 48, thorough 200) of ZipArchive::new and of new_append (+1 entry, finish). Oracle: no panic/abort anywhere; if no call returned an error the logical result (entries, content, comment as seen by the crate reader and the independent parser) equals the failure-free result. Non-trivial = the failure-free run performs >=1 I/O call. evaluations counts scenarios; coverage.fault_runs counts injected-fault executions.");
+    ctx.rule("each scenario is first run failure-free under a counting stream (n I/O calls), then re-run with a hard error injected at EVERY call index k<n, as a one-shot and as a sticky failure of kind Other, and with the kinds UnexpectedEof (one-shot, sticky) and Interrupted (one-shot: std's own retry loops swallow it, then the result must be the failure-free one); after the first error the scenario keeps issuing its remaining calls, then finish(), a second finish() and drop. readers: open + read every entry (seekable; streaming fully consumed; archives with encrypted entries a second time with a caller that reads 5 bytes at a time and calls read() again after an error) of the seed archives (plain, ZIP64, ZipCrypto, AES) and generated archives. writers: generated programs over all entry kinds, methods, extra data, aligned, ZipCrypto, optional append base and raw copies, completed by finish or drop; half of them with a caller that issues EVERY call of an operation whatever the earlier ones returned (write after a refused start_file, end_extra_data after a failed write) and calls flush() after each operation. writers_methods: every method x every kind of following operation, the same two callers. writers_far: two entries + comment written to a sparse sink that starts beyond 4 GiB, so the ZIP64 end record and locator are written and EVERY I/O call of the run (each field of those records) is failed in turn. big_open: archives with > 65535 entries, a fault at every one of the first K I/O calls (quick 48, thorough 200) of ZipArchive::new and of new_append (+1 entry, finish). Oracle: no panic/abort anywhere; if no call returned an error the logical result (entries, content, comment as seen by the crate reader and the independent parser) equals the failure-free result. Non-trivial = the failure-free run performs >=1 I/O call. evaluations counts scenarios; coverage.fault_runs counts injected-fault executions.");
     ctx.assume("streaming entries are read to the end, so the failure lands in a Result-returning call (the documented panic in the streaming ZipFile's drop-time drain is outside the property's wording)");
     ctx.assume("completion by drop swallows errors by design; for drop scenarios only the no-panic clause is checked");
     let seeds = seeds::small_seeds();
@@ -423,6 +507,11 @@ pub fn run(ctx: &mut Ctx) {
             },
         );
     }
+    let fars: Vec<u64> = ctx.q(vec![(1u64 << 32) + 5], vec![(1u64 << 32) - 700, (1u64 << 32) + 5, 1u64 << 33]);
+    ctx.enumerate::<u64>("writers_far", fars.len() as u64, &|i| fars[i as usize], &|start: &u64, info: &mut Info| {
+        info.label("zip64-end-records-under-fault");
+        Verdict::from_result(sweep_writer_far(*start, info))
+    });
     let nw = ctx.q(60, 2000);
     ctx.explore::<WScenario>(
         "writers",
